@@ -1,6 +1,11 @@
 package ristretto
 
-import "time"
+import (
+	"sync"
+	"time"
+)
+
+var vfMonMu sync.Mutex
 
 // Shared set-up for cache-level scenarios (shape S of DESIGN.md §3): the real NewCache with the
 // applier goroutine, the policy goroutine and the ticker as executor threads.
@@ -127,8 +132,19 @@ func (m *vfMon) vfKeys(nk int, distinctHashes bool) {
 
 // val makes a fresh value (unique id) for key index k.
 func (m *vfMon) val(k uint64) vfVal {
-	id := m.nextID
-	m.nextID++
+	// the id counter is monitor state shared by the client goroutines of a scenario: one atomic ghost
+	// step for the executor, a mutex in the native replay
+	var id uint64
+	if vfNative() {
+		vfMonMu.Lock()
+	}
+	vfGhost(func() {
+		id = m.nextID
+		m.nextID++
+	})
+	if vfNative() {
+		vfMonMu.Unlock()
+	}
 	return vfVal{id: id, key: m.hash[k], conflict: m.conf[k]}
 }
 
